@@ -23,13 +23,15 @@ TECHNIQUE = ("bounded exhaustive enumeration: every null pattern of arrays of le
              "counts 1..8 x dtypes x FIFO/LIFO completion order for the NaN-aware reducers against "
              "numpy.nan*; every small matrix/vector for nb_dot against a @ b; every boolean frame up "
              "to 4x3 for the labeller; a value/bin-edge grid (values on, just below and just above "
-             "every edge) for pretty_cut with the printed label parsed back")
+             "every edge) for pretty_cut with the printed label parsed back"
+             '; task-footprint recorder on the reducer tasks')
 RULE = ("reducer case = one null pattern x dtype, run for every function x n_threads 1..8 (so "
         "all-null, single-element and empty blocks occur); 2-D case = null pattern of a 2x2/2x3/3x2 "
         "array x axis; dot case = one matrix over {0,1,-1,2} x every vector; labeller case = one "
         "boolean frame; binning case = one edge set x every probe value; non-trivial = more than one "
         "element / block")
 ASSUMPTIONS = [
+    'footprint sub-spaces: write-write conflicts between the per-block / per-column reducer tasks (f8, i4, i8, u1; all 2-D cases)',
     "array length <= 8 (quick) / 10 (thorough) for the 1-D reducers",
     "values from the position table (dyadic), var/std compared with relative tolerance 1e-9",
     "nanvar/nanstd are called with explicit ddof in {0,1} and compared with numpy's ddof",
